@@ -83,10 +83,27 @@ inductive Outcome where
   | unset
 deriving Repr, DecidableEq, Inhabited
 
+/-- A `double` read back from the Initial Size Class Cache (`initial_page_rank_probability`):
+any IEEE value may be stored, so the non-finite ones are represented explicitly; every finite
+double (zero, denormal, negative, > 1) is the rational it denotes. -/
+inductive StoredProb where
+  | nan
+  | posInf
+  | negInf
+  | fin (q : Rat)
+deriving Repr, DecidableEq, Inhabited
+
+/-- The restore guard of `GetStrategies` as written:
+`probability := 0.5; if restored > 0 && restored < 1 { probability = restored }`.
+Both comparisons are false for NaN, so only values strictly inside (0,1) are taken. -/
+def restoredOf : StoredProb → Rat
+  | .fin q => if 0 < q ∧ q < 1 then q else 1 / 2
+  | _ => 1 / 2
+
 /-- `iscc.PerSizeClassStats`. -/
 structure PerClass where
   execs : List Outcome := []
-  prob : Rat := 0
+  prob : StoredProb := .fin 0
 deriving Repr, DecidableEq, Inhabited
 
 abbrev ClassMap := List (Nat × PerClass)
@@ -316,7 +333,7 @@ def matrix (outs : List Outcomes) (n : Nat) : List (List Rat) :=
 
 /-- Restored / default starting probabilities of entries `1 … n-1`. -/
 def restored (pcs : List PerClass) : List Rat :=
-  pcs.map (fun pc => if 0 < pc.prob ∧ pc.prob < 1 then pc.prob else 1 / 2)
+  pcs.map (fun pc => restoredOf pc.prob)
 
 /-- The starting vector: entry 0 is inferred from the others. -/
 def startVec (pcs : List PerClass) : List Rat :=
@@ -355,10 +372,10 @@ def iterate (m : List (List Rat)) (eps : Rat) : Nat → List Rat → List Rat ×
 
 /-- "Save the probabilities that have been computed." -/
 def saveProbs (m : ClassMap) (classes : List Nat) (probs : List Rat) : ClassMap :=
-  let zeroed : ClassMap := m.map (fun e => (e.1, { e.2 with prob := 0 }))
+  let zeroed : ClassMap := m.map (fun e => (e.1, { e.2 with prob := .fin 0 }))
   (classes.zip probs).foldl
     (fun acc e => match getClass acc e.1 with
-      | some pc => setClass acc e.1 { pc with prob := e.2 }
+      | some pc => setClass acc e.1 { pc with prob := .fin e.2 }
       | none => acc) zeroed
 
 def setProbs : List Strategy → List Rat → List Strategy
